@@ -4,6 +4,7 @@ import (
 	"fmt"
 	"go/ast"
 	"go/token"
+	"go/types"
 	"strings"
 )
 
@@ -186,6 +187,16 @@ func hashNilVsEmpty(c *Ctx) {
 func runR_C04(c *Ctx) {
 	sweepHealth(c, "hash", "equal")
 	rR1(c, "hash")
+	hashCoreRules(c, true)
+	hashNilVsEmpty(c)
+	g9Methods(c, methodSpec{"hash.hasHashMethod", "Hash", 0, 1, types.Invalid})
+	sortLessRules(c)
+	c.Rep.floor("R16", 50)
+}
+
+// hashCoreRules: value-only inputs, ordered map traversal, purity, guards (and, with leafTable, R17's float-bits leaf).
+func hashCoreRules(c *Ctx, leafTable bool) {
+	sweepHealth(c, "hash")
 	n := 0
 	for _, rs := range c.acceptedResids("hash") {
 		if rs.Err != nil || len(rs.Funcs) != 1 {
@@ -201,7 +212,9 @@ func runR_C04(c *Ctx) {
 		ok = reportIssues(c, rs, "R-input", "", hashInputIssues(s)) && ok
 		ok = reportIssues(c, rs, "R10", "", writesThroughRoots(s, nil)) && ok
 		ok = reportIssues(c, rs, "R7", "", s.guardIssues(false)) && ok
-		ok = reportIssues(c, rs, "R17", "", floatBitsIssues(s)) && ok
+		if leafTable {
+			ok = reportIssues(c, rs, "R17", "", floatBitsIssues(s)) && ok
+		}
 		if ok {
 			for _, r := range []string{"R16", "R-input", "R10", "R7", "R17"} {
 				c.Rep.pass(r)
@@ -211,7 +224,5 @@ func runR_C04(c *Ctx) {
 			c.Rep.sample(map[string]interface{}{"plugin": "hash", "path": rs.Run.shapeKey(), "residual": rs.Run.Text})
 		}
 	}
-	hashNilVsEmpty(c)
 	c.Rep.analysed("hash_residuals", n)
-	c.Rep.floor("R16", 50)
 }
